@@ -463,6 +463,10 @@ class Obj(object):
         tr('m', self.v, k)
         self.v += k
         return self.v
+class Obj0(Obj):
+    """same behaviour, but a falsy receiver"""
+    def __bool__(self):
+        return False
 hp = functools.partial(h2, v=2)
 '''
 
@@ -684,10 +688,17 @@ class _Gen(object):
             g = 'g%d' % self.nfn
             p = r.choice(['', 'p', 'p, q=1'])
             self.emit(ind, 'def %s(%s):' % (g, p))
-            if r.random() < 0.2:
+            nlr = r.random()
+            if nlr < 0.2:
                 F.add('nonlocal')
                 self.emit(ind + '    ', 'nonlocal %s' % v)
                 self.emit(ind + '    ', '%s = %s' % (v, self.iexpr(1)))
+            elif nlr < 0.3:
+                # declaration inside a block of the closure (legal as long as it precedes every use in the function)
+                F.add('nonlocal'); F.add('nonlocal_in_block')
+                self.emit(ind + '    ', 'if %s:' % r.choice(['True', 'd()', '1 < 2']))
+                self.emit(ind + '        ', 'nonlocal %s' % v)
+                self.emit(ind + '        ', 'tr(%d, %s)' % (self.slot(), v))
             self.block(ind + '    ', depth - 1, False, False)
             self.emit(ind + '    ', 'return %s' % self.iexpr(1))
             call = '%s(%s)' % (g, '' if not p else self.iexpr(1))
@@ -699,8 +710,14 @@ class _Gen(object):
                 self.emit(ind, '%s = %s' % (r.choice(self.ivars), call))
             return
         F.add('del')
-        self.emit(ind, 'del %s' % v)
-        self.emit(ind, '%s = %s' % (v, self.iexpr(1)))
+        if r.random() < 0.5:
+            self.emit(ind, 'del %s' % v)
+            self.emit(ind, '%s = %s' % (v, self.iexpr(1)))
+        else:
+            # delete only on one path, no re-assignment: a later read must raise exactly when that path ran
+            F.add('del_in_branch')
+            self.emit(ind, 'if %s:' % self.bexpr(1))
+            self.emit(ind + '    ', 'del %s' % v)
 
 
 def random_program(rng, size=12, profile='c01'):
@@ -729,7 +746,7 @@ def random_program(rng, size=12, profile='c01'):
     if g.uses_global:
         head.append('    global G')
     if g.uses_obj:
-        g.lines.insert(0, '    o = Obj(a)')
+        g.lines.insert(0, '    o = Obj(a)' if rng.random() < 0.6 else '    o = Obj0(a)')
     src = '\n'.join(head + g.lines) + '\n'
     inputs = [(1, 2, 3, [1, 2]), (0, 0, 0, [0]), (-1, 5, 2, [3, -1, 4]), (4, 1, 0, [2]),
               (rng.randrange(-3, 6), rng.randrange(-3, 6), rng.randrange(-3, 6), [rng.randrange(-2, 5) for _ in range(rng.randrange(1, 4))])]
@@ -940,6 +957,10 @@ BINDING_SCENARIOS = [
     ('delete_then_rebind', 'r = v\ndel v\nv = [3]'),
     ('global_decl_elsewhere', 'r = v + [G]'),
     ('class_body_reads', 'class K(object):\n    z = v\nr = K.z'),
+    ('del_in_branch_then_read', 'if d():\n    del v\nr = v'),
+    ('del_in_loop_then_read', 'for k9 in n():\n    del v\n    break\nr = v'),
+    ('closure_nonlocal_declared_in_block', 'def g():\n    if True:\n        nonlocal v\n        return v\nr = g()'),
+    ('closure_global_declared_in_block', 'def g():\n    if True:\n        global G\n        return [G]\nr = g() + v'),
 ]
 
 
